@@ -128,6 +128,34 @@ def run_drivers_parallel(src, tmp, progs, types, cases, shards=8):
     return imp, results
 
 
+def tlc_given(tmp: Path, progs, types, cases, mode, *, tag="given", shards=8, timeout=3600, withsize=True):
+    """Pattern V: MC_Proto in mode 'given' / 'givenbytes' on harness-recorded cases ([p (1-based), obj, san0] / [p, data, ch0]).
+    Returns the emitted records ordered like `cases`."""
+    (tmp / f"{tag}.cfg").write_text(cfg_text(mode, emit=True, withsize=withsize, invariants=("PInBounds",) if mode == "givenbytes" else ("SerLeavesModeAsFound",)))
+    cf = tmp / f"{tag}_corpus.json"
+    write_corpus(cf, progs, corpus_types(progs, types))
+    shards = max(1, min(shards, len(cases)))
+    parts = [cases[i::shards] for i in range(shards)]
+
+    def one(a):
+        k, part = a
+        f = tmp / f"{tag}_cases{k}.json"
+        dump_json(f, part)
+        r = run_tlc("MC_Proto", str(tmp / f"{tag}.cfg"), env={"CORPUS_FILE": str(cf), "CASES_FILE": str(f)}, workers=2, timeout=timeout, heap="4g")
+        if not r.ok:
+            raise MachineryError(f"MC_Proto/{mode} failed:\n" + r.tail(40))
+        got = {p["cid"]: p for p in r.printed if isinstance(p, dict) and "cid" in p}
+        if len(got) != len(part):
+            raise MachineryError(f"MC_Proto/{mode}: {len(got)} verdicts for {len(part)} cases")
+        return [got[j + 1] for j in range(len(part))]
+    with ThreadPoolExecutor(max_workers=len(parts)) as ex:
+        outs = list(ex.map(one, enumerate(parts)))
+    res = [None] * len(cases)
+    for k, o in enumerate(outs):
+        res[k::shards] = o
+    return res
+
+
 def tlc_proto(tmp: Path, progs, types, cfg: str, *, shards=1, workers=None, timeout=3600, tag="mc", coverage=False):
     """Run MC_Proto on the corpus (optionally sharded by program); returns list of TLCResult."""
     (tmp / f"{tag}.cfg").write_text(cfg)
